@@ -188,6 +188,7 @@ def check_config(ctx, idx, c, workers):
     gfile = ctx.datafile(f"graph{idx}.json", g)
     # (3) verdict: TLC model-checks the property on the recorded real graph
     mc = {k: v for k, v in consts_of(c).items() if k in ("Schedule", "DtMin", "DtMax", "RecompMax")}
+    mc["Eps"] = 0
     m, cf = tlc.gen(wd, "MC_M_TimeStepper", "M_TimeStepper", mc, spec="MSpec", invariants=INVS, properties=PROPS)
     out["monitor"] = ctx.tlc(m, cf, workers=workers, env={"VERIF_GRAPH": gfile})
     # (4) conformance: every recorded edge is a step of the specification
@@ -248,6 +249,100 @@ def judge(ctx, o):
         [o["design"].distinct, len(g["nodes"]), ne, len(missing)]) if len(ctx.extra.get("spec_vs_real", [])) < 12 else None
 
 
+
+# ----------------------------------------------------------------- arbitrary float parameters (isclose paths)
+FS = 1 << 18   # integer units per unit of time for the float family; Eps units of slack
+
+
+def float_family(ctx, n_cfg, n_scripts):
+    """Random NON-dyadic parameters (incl. the defaults 0.7 / 1.3): random outcome scripts are run through the real
+    loop; the runs are merged into a prefix tree with values rounded to 1/FS; M_TimeStepper judges the clauses with
+    equalities read as 'within Eps'."""
+    import porepy as pp
+
+    r = ctx.rng
+    jobs = []
+    for ci in range(n_cfg):
+        k = r.randint(2, 6)
+        t = r.choice([0.0, 0.3, 2.5])
+        sched = [t]
+        for _ in range(k - 1):
+            t += r.choice([0.1, 0.25, 0.37, 0.5, 1.0, 1.3, 2.0])
+            sched.append(round(t, 10))
+        dt_min = r.choice([0.01, 0.05, 0.1])
+        dt_max = r.choice([0.5, 1.0, 2.0])
+        under, over = r.choice([(0.7, 1.3), (0.5, 1.5), (0.3, 1.1), (0.9, 2.0)])
+        if dt_min * over > dt_max or dt_max * under < dt_min:
+            continue
+        cand = [d for d in (0.05, 0.1, 0.13, 0.25, 0.3, 0.5, 1.0) if dt_min <= d <= dt_max and d <= sched[1] - sched[0] + 1e-12]
+        if not cand:
+            continue
+        cfg = dict(sched=sched, dt_init=r.choice(cand), dt_min=dt_min, dt_max=dt_max, under=under, over=over,
+                   recomp=r.choice([0.5, 0.3, 0.75]), recomp_max=r.randint(1, 4))
+        nodes, edges, index = [], [], {}
+
+        def proj(tm, phase):
+            return dict(exact=True, time=int(round(tm.time * FS)), dt=int(round(tm.dt * FS)), sidx=int(tm._scheduled_idx) + 1,
+                        recomp=int(tm._recomp_num), about=bool(tm._is_about_to_hit_schedule), tindex=int(tm.time_index),
+                        phase=phase, nfail=0)
+
+        def mk():
+            return pp.TimeManager(schedule=cfg["sched"], dt_init=cfg["dt_init"], dt_min_max=(cfg["dt_min"], cfg["dt_max"]),
+                                  iter_max=15, iter_optimal_range=(4, 7), iter_relax_factors=(cfg["under"], cfg["over"]),
+                                  recomp_factor=cfg["recomp"], recomp_max=cfg["recomp_max"])
+
+        nodes.append(proj(mk(), "ready"))
+        edges.append([])
+        for _ in range(n_scripts):
+            d = Drv.__new__(Drv)
+            d.tm, d.phase, d.nfail, d.budget = mk(), "ready", 0, 10 ** 9
+            n, steps = 1, 0
+            while d.phase in ("ready", "solving") and steps < 400:
+                steps += 1
+                if d.phase == "ready":
+                    act = dict(ev="inc")
+                elif r.random() < 0.25:
+                    act = dict(ev="fail")
+                else:
+                    act = dict(ev="conv", it=r.choice([1, 4, 5, 6, 7, 12]))
+                res = apply(d, act) or {}
+                p = proj(d.tm, d.phase)
+                key = (n, tuple(sorted(act.items())))
+                m = index.get(key)
+                if m is None:
+                    m = len(nodes) + 1
+                    index[key] = m
+                    nodes.append(p)
+                    edges.append([])
+                    edges[n - 1].append(dict(act, **res, dst=m))
+                n = m
+        jobs.append((cfg, dict(nodes=nodes, edges=edges, truncated=False, cut=[p["phase"] in ("ready", "solving") for p in nodes])))
+    return jobs
+
+
+def judge_float(ctx, idx, cfg, g):
+    eps = 4
+    mc = dict(Schedule=[int(round(x * FS)) for x in cfg["sched"]], DtMin=int(round(cfg["dt_min"] * FS)),
+              DtMax=int(round(cfg["dt_max"] * FS)), RecompMax=cfg["recomp_max"], Eps=eps)
+    gfile = ctx.datafile(f"fgraph{idx}.json", g)
+    m, cf = tlc.gen(ctx.work / f"fcfg{idx}", "MC_M_TimeStepper", "M_TimeStepper", mc, spec="MSpec", invariants=INVS,
+                    properties=["Mono", "MonoStrict"])
+    mon = ctx.tlc(m, cf, workers=4, env={"VERIF_GRAPH": gfile})
+    ne = ex.n_edges(g)
+    ctx.traces += ne
+    ctx.case(key=("float", idx), nontrivial=any(e["ev"] == "fail" for es in g["edges"] for e in es), n=ne)
+    if mon.violated:
+        ids = _violating_path(mon)
+        events = []
+        for a, b in zip(ids, ids[1:]):
+            for e in g["edges"][a - 1]:
+                if e["dst"] == b:
+                    events.append({k: v for k, v in e.items() if k != "dst"})
+                    break
+        ctx.violation(mon.violated, dict(float_config=cfg, events=events, states=[g["nodes"][i - 1] for i in ids]),
+                      f"float parameters schedule={cfg['sched']} relax=({cfg['under']},{cfg['over']}) after {len(events)} calls")
+
+
 def run(ctx):
     ctx.rule = ("per configuration (schedule, dt bounds, relaxation/recomputation parameters, fault budget) the real "
                 "TimeManager is explored breadth-first under the loop of run_time_dependent_model with every outcome "
@@ -269,11 +364,20 @@ def run(ctx):
     ctx.sample(dict(config=outs[-1]["cfg"], nodes=len(outs[-1]["graph"]["nodes"])))
     ctx.exhaustive = not any(o["graph"]["truncated"] for o in outs)
     ctx.extra["configurations"] = len(cfgs)
+    # second family: arbitrary (non-dyadic) float parameters, random scripts, clauses judged within a tolerance
+    fj = float_family(ctx, 12 if ctx.quick else 150, 40 if ctx.quick else 150)
+    with ThreadPoolExecutor(4) as pool:
+        list(pool.map(lambda t: judge_float(ctx, t[0], t[1][0], t[1][1]), enumerate(fj)))
+    ctx.extra["float_configurations"] = len(fj)
+    if fj:
+        ctx.sample(dict(float_config=fj[0][0], path=ex.path_to(fj[0][1], len(fj[0][1]["nodes"]))[:10]))
 
 
 def replay(ctx, body):
     """Re-execute one recorded violating event path on the real TimeManager and re-judge it."""
     rec = body["record"]
+    if "float_config" in rec:
+        return replay_float(ctx, rec)
     c = rec["config"]
     c["over"], c["under"], c["recomp"] = tuple(c["over"]), tuple(c["under"]), tuple(c["recomp"])
     d = Drv(c)
@@ -286,6 +390,7 @@ def replay(ctx, body):
     g = dict(nodes=nodes, edges=edges, truncated=False)
     gfile = ctx.datafile("graph_replay.json", g)
     mc = {k: v for k, v in consts_of(c).items() if k in ("Schedule", "DtMin", "DtMax", "RecompMax")}
+    mc["Eps"] = 0
     m, cf = tlc.gen(ctx.work / "replay", "MC_M_TimeStepper", "M_TimeStepper", mc, spec="MSpec", invariants=INVS,
                     properties=["Mono", "MonoStrict"])
     mon = ctx.tlc(m, cf, workers=1, env={"VERIF_GRAPH": gfile})
@@ -293,3 +398,30 @@ def replay(ctx, body):
     ctx.sample(rec["events"])
     if mon.violated:
         ctx.violation(mon.violated, rec, "replayed")
+
+
+def replay_float(ctx, rec):
+    import porepy as pp
+
+    cfg = rec["float_config"]
+    d = Drv.__new__(Drv)
+    d.tm = pp.TimeManager(schedule=cfg["sched"], dt_init=cfg["dt_init"], dt_min_max=(cfg["dt_min"], cfg["dt_max"]), iter_max=15,
+                          iter_optimal_range=(4, 7), iter_relax_factors=(cfg["under"], cfg["over"]),
+                          recomp_factor=cfg["recomp"], recomp_max=cfg["recomp_max"])
+    d.phase, d.nfail, d.budget = "ready", 0, 10 ** 9
+
+    def proj():
+        tm = d.tm
+        return dict(exact=True, time=int(round(tm.time * FS)), dt=int(round(tm.dt * FS)), sidx=int(tm._scheduled_idx) + 1,
+                    recomp=int(tm._recomp_num), about=bool(tm._is_about_to_hit_schedule), tindex=int(tm.time_index),
+                    phase=d.phase, nfail=0)
+
+    nodes, edges = [proj()], []
+    for i, e in enumerate(rec["events"], start=1):
+        res = apply(d, e) or {}
+        nodes.append(proj())
+        edges.append([dict(e, **res, dst=i + 1)])
+    edges.append([])
+    g = dict(nodes=nodes, edges=edges, truncated=False, cut=[True] * len(nodes))
+    ctx.sample(rec["events"][:10])
+    judge_float(ctx, 0, cfg, g)
